@@ -379,6 +379,84 @@ async fn kaconn(ver: &str, timeout_s: u64, handshake: Option<u64>, next_socket: 
     format!("KACONN {}", res)
 }
 
+// ---------------------------------------------------------------------------------------------
+// read bursts (C10): the broker writes <n> packets at once; the loop is polled until it goes idle.
+//   BURST <ver> <n> <1|2|m>   -> BURST I[<incoming notifications>] W[<packets the broker received>] END <IDLE|ERROR kind>
+macro_rules! burst_scenario {
+    ($name:ident, $netty:ty, $mknet:expr, $evloop:ty, $newclient:expr, $opts:expr, $connack:expr, $mkpub:expr,
+     $ev_in:expr, $pkt_s:expr, $err:expr) => {
+        async fn $name(n: usize, mix: &str, next_socket: &Rc<RefCell<Option<DuplexStream>>>) -> String {
+            let (client_end, broker_end) = tokio::io::duplex(1 << 22);
+            *next_socket.borrow_mut() = Some(client_end);
+            let mut bn: $netty = $mknet(broker_end);
+            let _ = bn.write($connack(None)).await;
+            let _ = bn.flush().await;
+            let (_client, mut el): (_, $evloop) = $newclient($opts(3_600_000));
+            let mut ins: Vec<String> = vec![];
+            let mut end = "IDLE".to_string();
+            // connect first
+            let _ = tokio::time::timeout(Duration::from_millis(10), el.poll()).await;
+            for k in 1..=n {
+                let q = match mix { "1" => 1u8, "2" => 2u8, _ => (k % 3) as u8 };
+                let _ = bn.write($mkpub(q, k as u16)).await;
+            }
+            let _ = bn.flush().await;
+            loop {
+                match tokio::time::timeout(Duration::from_millis(50), el.poll()).await {
+                    Err(_) => break,
+                    Ok(Ok(ev)) => { if let Some(x) = ($ev_in)(&ev) { ins.push(x) } }
+                    Ok(Err(e)) => { end = format!("ERROR {}", ($err)(&e)); break }
+                }
+            }
+            let mut w: Vec<String> = vec![];
+            loop {
+                match bn.read().now_or_never() {
+                    Some(Ok(p)) => w.push(($pkt_s)(&p)),
+                    _ => break,
+                }
+            }
+            format!("BURST I[{}] W[{}] END {}", ins.join(" "), w.join(" "), end)
+        }
+    };
+}
+fn pkt5_s(p: &rumqttc::v5::mqttbytes::v5::Packet) -> String {
+    use rumqttc::v5::mqttbytes::v5::Packet as P;
+    match p {
+        P::Connect(..) => "CONNECT".into(),
+        P::Publish(p) => format!("PUB:{}:{}", p.qos as u8, p.pkid),
+        P::PubAck(a) => format!("PUBACK:{}", a.pkid),
+        P::PubRec(a) => format!("PUBREC:{}", a.pkid),
+        P::PubRel(a) => format!("PUBREL:{}", a.pkid),
+        P::PubComp(a) => format!("PUBCOMP:{}", a.pkid),
+        P::PingReq(_) => "PINGREQ".into(),
+        other => format!("OTHER:{}", format!("{other:?}").split(|c: char| !c.is_alphanumeric()).next().unwrap_or("")),
+    }
+}
+burst_scenario!(
+    burst4, Network, |s: DuplexStream| Network::new(s, 1 << 20, 1 << 20), EventLoop,
+    |o: MqttOptions| AsyncClient::new(o, 10), opts4,
+    |_k: Option<u16>| Packet::ConnAck(ConnAck::new(ConnectReturnCode::Success, false)),
+    |q: u8, id: u16| { let mut p = Publish::new(format!("t{id}"), qos(&q.to_string()), id.to_string().into_bytes()); p.pkid = if q == 0 { 0 } else { id }; Packet::Publish(p) },
+    |e: &Event| match e { Event::Incoming(Packet::Publish(p)) => Some(format!("PUB:{}:{}:{}", p.qos as u8, p.pkid, ptag(&p.payload))), Event::Incoming(Packet::ConnAck(_)) => None, Event::Incoming(p) => Some(packet_s(p)), _ => None },
+    |p: &Packet| packet_s(p), error_s
+);
+burst_scenario!(
+    burst5, rumqttc::verif::NetworkV5, |s: DuplexStream| rumqttc::verif::NetworkV5::new(s, Some(1 << 20)), rumqttc::v5::EventLoop,
+    |o: rumqttc::v5::MqttOptions| rumqttc::v5::AsyncClient::new(o, 10), opts5, connack5,
+    |q: u8, id: u16| {
+        let mut p = rumqttc::v5::mqttbytes::v5::Publish::new(format!("t{id}"), match q { 0 => rumqttc::v5::mqttbytes::QoS::AtMostOnce, 1 => rumqttc::v5::mqttbytes::QoS::AtLeastOnce, _ => rumqttc::v5::mqttbytes::QoS::ExactlyOnce }, id.to_string().into_bytes(), None);
+        p.pkid = if q == 0 { 0 } else { id };
+        rumqttc::v5::mqttbytes::v5::Packet::Publish(p)
+    },
+    |e: &rumqttc::v5::Event| match e {
+        rumqttc::v5::Event::Incoming(rumqttc::v5::mqttbytes::v5::Packet::Publish(p)) => Some(format!("PUB:{}:{}:{}", p.qos as u8, p.pkid, ptag(&p.payload))),
+        rumqttc::v5::Event::Incoming(rumqttc::v5::mqttbytes::v5::Packet::ConnAck(_)) => None,
+        rumqttc::v5::Event::Incoming(p) => Some(pkt5_s(p)),
+        _ => None,
+    },
+    pkt5_s, err5
+);
+
 struct Broker {
     net: Option<Network>,
 }
@@ -484,6 +562,10 @@ async fn run() {
             "KA" => {
                 let a = ka_args(&t);
                 if t[1].starts_with('4') { ka4(a, &next_socket).await } else { ka5(a, &next_socket).await }
+            }
+            "BURST" => {
+                let n: usize = t[2].parse().unwrap();
+                if t[1] == "4" { burst4(n, t[3], &next_socket).await } else { burst5(n, t[3], &next_socket).await }
             }
             "KACONN" => {
                 let h = if t[3] == "never" { None } else { Some(t[3].parse().unwrap()) };
